@@ -37,7 +37,7 @@ def main(path):
             if key in seen_worlds:
                 continue
             seen_worlds.add(key)
-            seed, kprop, tier, shard, wi = key
+            seed, kprop, tier, shard, wi = key[:5]      # (longer keys only name a special world kind of that index)
             core.ONLY_WORLD = wi
             acc = Acc()
             mod.run_shard(acc, prop=prop, tier=tier, seed=seed, shard=shard, nshards=core.NSHARDS)
